@@ -124,6 +124,42 @@ def extra_checks(ctx):
         if not ok:
             fails.append({'key': 'json-settings-readback', 'kind': 'counterexample', 'ops': ['J.begin'] + sops + ['J.stext', 'J.sread'],
                           'diff': 'parse_board_settings(written) differs from the boards written'})
+    # a write that RAISES (a double-dummy table json cannot serialise) writes no board: the boards written before and after it
+    # are still read back, in order
+    for i in range(15 if ctx.quick else 150):
+        n = rng.choice([1, 2, 3])
+        sops = [J.gen_sentry_op(rng) for _ in range(n)]
+        entries = [J.SEntry(o.split(' ')) for o in sops]
+        k = rng.randrange(n + 1)
+        ctx.count('_cases')
+        ctx.count('oracle_refused_writes')
+        buf = io.StringIO()
+        raised = False
+
+        def bad(w):
+            nonlocal raised
+            try:
+                w.write(board_id='unserialisable', dealer=entries[0].dealer, deal=J.hands_obj(entries[0].hands), vul=entries[0].vul,
+                        dda={e['Player'].N: {e['Suit'].C: {1, 2}}})
+            except Exception:
+                raised = True
+        try:
+            with e['JsonBoardSettingWriter'](buf) as w:
+                for j, en in enumerate(entries):
+                    if j == k:
+                        bad(w)
+                    en.write(w)
+                if k == n:
+                    bad(w)
+            got = e['JsonParser']().parse_board_settings(io.StringIO(buf.getvalue()))
+            ok = (not raised) or (len(got) == len(entries) and all(
+                g.board_id == en.board_id and g.dealer is en.dealer and g.vul is en.vul and g.hands == J.hands_obj(en.hands)
+                and g.dda == en.dda for g, en in zip(got, entries)))
+        except Exception as ex:
+            ok = False
+        if not ok:
+            fails.append({'key': 'json-settings-after-refused-write', 'kind': 'counterexample', 'ops': ['J.begin'] + sops,
+                          'diff': {'refused_write_before_entry': k, 'text': buf.getvalue()[-300:]}})
     return fails
 
 
